@@ -265,11 +265,17 @@ func checkMaxMin(list []decOperand) string {
 		parts = append(parts, d.lit(i))
 	}
 	args := strings.Join(parts, ", ")
-	arr, msg := evalArr("[max("+args+"), min("+args+"), max(["+args+"]...), min(["+args+"]...)]", nil)
+	// the same arguments, each handed through a call of its own (max / min of a single argument return it)
+	var wrapped []string
+	for i, p := range parts {
+		wrapped = append(wrapped, []string{"max(", "min("}[i%2]+p+")")
+	}
+	wargs := strings.Join(wrapped, ", ")
+	arr, msg := evalArr("[max("+args+"), min("+args+"), max(["+args+"]...), min(["+args+"]...), max("+wargs+"), min("+wargs+")]", nil)
 	if msg != "" {
 		return msg
 	}
-	for i, name := range []string{"max", "min", "max(spread)", "min(spread)"} {
+	for i, name := range []string{"max", "min", "max(spread)", "min(spread)", "max(arguments through calls)", "min(arguments through calls)"} {
 		r, ok := obs.Rat(arr[i])
 		if !ok {
 			return fmt.Sprintf("%s(%s) = %s", name, args, obs.Show(arr[i]))
